@@ -154,6 +154,9 @@ impl Cache {
             let mut proc = collection.find(&task.pid)?;
             proc.end_time = p.end_time();
             proc.state = p.state().into();
+            // what the process has learnt since it was started belongs to its row too
+            proc.env = p.env().to_string();
+            proc.err = p.err().map(|err| err.to_string());
 
             collection.update(&proc)?;
             self.store.upsert_task(task)?;
